@@ -43,9 +43,10 @@ function makeRealm(assign, nullAt) {
       for (let i = 0; i < v.length; i++) parts.push(i in v ? describe(v[i], d + 1) : '<hole>');
       return '[' + parts.join(',') + ']';
     }
-    if (v instanceof Promise) return 'promise';
-    if (v instanceof RegExp) return 'regex:' + String(v);
-    if (v instanceof Error) return 'error:' + v.constructor.name;
+    const tag = Object.prototype.toString.call(v);      // (values come from another realm: no instanceof)
+    if (tag === '[object Promise]') return 'promise';
+    if (tag === '[object RegExp]') return 'regex:' + String(v);
+    if (tag === '[object Error]') return 'error:' + errName(v);
     let keys;
     try { keys = Object.keys(v); } catch (e) { return 'object'; }
     return '{' + keys.map((k) => k + ':' + describe(v[k], d + 1)).join(',') + '}';
@@ -150,13 +151,17 @@ function makeRealm(assign, nullAt) {
   // a bare call `f()` of a name resolved through `with (scope)` receives the scope object as `this`: name it, so that its
   // contents (which differ between input and output: injected temporaries) are not part of the log
   scopeRef.scope = scope;
-  return { log, prim, scope, describe, thisObj: mk('this', false) };
+  return { log, prim, scope, describe, thisObj: mk('this', false), isProxy: (v) => (typeof v === 'object' || typeof v === 'function') && v !== null && labels.has(v) };
 }
 
-function errName(e) {
+function errName(e, realm) {
   if (e === null || e === undefined) return String(e);
   if (typeof e === 'object' || typeof e === 'function') {
-    try { if (e instanceof Error) return e.constructor.name; } catch (x) { /* proxy */ }
+    if (realm && realm.isProxy(e)) return 'thrown-outside-object';
+    if (Object.prototype.toString.call(e) === '[object Error]') {
+      const n = e.constructor && e.constructor.name;
+      return typeof n === 'string' ? n : 'Error';
+    }
     return 'thrown-object';
   }
   return 'thrown:' + typeof e + ':' + String(e);
@@ -172,10 +177,10 @@ async function runOne(script, assign, nullAt) {
   const realm = makeRealm(assign, nullAt);
   let outcome;
   try {
-    globalThis.__v8d_this = realm.thisObj;
-    globalThis.__v8d_scope = realm.scope;
+    // a fresh V8 context per run: built-ins the program reaches through literals (`"s".substring.x = ..`) start pristine
+    const context = vm.createContext({ __v8d_this: realm.thisObj, __v8d_scope: realm.scope });
     // (the timeout covers the synchronous part of the call; code after an `await` is bounded by the log limit only)
-    const promise = script.runInThisContext({ timeout: 250 });
+    const promise = script.runInContext(context, { timeout: 250 });
     let timer;
     const guard = new Promise((resolve) => { timer = setTimeout(() => resolve({ pending: true }), 300); });
     const r = await Promise.race([promise.then((v) => ({ value: v }), (e) => ({ error: e })), guard]);
@@ -183,12 +188,12 @@ async function runOne(script, assign, nullAt) {
     if (r.pending) outcome = ['pending'];
     else if ('error' in r) {
       if (r.error instanceof LogLimit) outcome = ['log-limit'];
-      else outcome = ['throw', errName(r.error)];
+      else outcome = ['throw', errName(r.error, realm)];
     } else outcome = ['return', realm.describe(r.value)];
   } catch (e) {
     if (e instanceof LogLimit) outcome = ['log-limit'];
     else if (e && e.code === 'ERR_SCRIPT_EXECUTION_TIMEOUT') outcome = ['timeout'];
-    else outcome = ['throw', errName(e)];
+    else outcome = ['throw', errName(e, realm)];
   }
   return { log: realm.log, prim: realm.prim.slice().sort(), outcome };
 }
